@@ -943,6 +943,9 @@ func nilExceptionFor(fn *ssa.Function, origin string, p ssa.Value) string {
 	pd := descDepth(p, 1)
 	for _, e := range c15NilExceptions {
 		if strings.HasSuffix(name, e.fn) && (strings.Contains(origin, e.origin) || strings.HasPrefix(pd, e.origin)) {
+			if e.origin == "GetJwksFetcher" && !oneofJustEnsured(fn, p) {
+				continue // the reason given for this exception does not hold on every path any more
+			}
 			return e.reason
 		}
 	}
@@ -1577,4 +1580,56 @@ func c15Getters(c *Check) {
 	c.Obl(len(bad) == 0 && total >= 50, cr("R2"), "generated-getters-nil-safe", "config/gen/go",
 		fmt.Sprintf("%d/%d generated getters start with the nil-receiver guard", guarded, total),
 		fmt.Sprintf("generated getters dereference a nil receiver: %v (of %d)", bad, total))
+}
+
+// oneofJustEnsured verifies the reason of the GetJwksFetcher exception: on every path from the function's entry
+// to the call whose result is dereferenced, either an earlier call of the same getter on the same receiver was
+// found non-nil, or the oneof field the getter reads was assigned a wrapper of the getter's own arm built here
+// (with a non-nil message). A guard on the oneof field as a whole (`cfg.JwksConfig == nil`) does not ensure it:
+// another arm may be set, for which the getter returns nil.
+func oneofJustEnsured(fn *ssa.Function, p ssa.Value) bool {
+	pc, _, ok := asCall(resolveCell(stripConv(p)))
+	if !ok || len(pc.Common().Args) != 1 || len(fn.Blocks) == 0 || len(fn.Blocks[0].Instrs) == 0 {
+		return false
+	}
+	recv := pc.Common().Args[0]
+	callee := pc.Common().StaticCallee()
+	ff := FactsOf(fn)
+	armSet := func(i ssa.Instruction) bool {
+		st, isS := i.(*ssa.Store)
+		if !isS {
+			return false
+		}
+		fa, isF := st.Addr.(*ssa.FieldAddr)
+		if !isF || !sameVal(fa.X, recv) {
+			return false
+		}
+		// the stored wrapper is built here, is of an arm type whose name matches the getter, and holds a non-nil message
+		w, isA := resolveCell(stripConv(st.Val)).(*ssa.Alloc)
+		if !isA || callee == nil || !strings.HasSuffix(typeID(derefType(w.Type())), "_"+strings.TrimPrefix(callee.Name(), "Get")) {
+			return false
+		}
+		for _, vals := range structFieldStores(w) {
+			for _, v := range vals {
+				if known, isNil := nilnessOf(v); known && !isNil {
+					return true
+				}
+			}
+		}
+		return false
+	}
+	foundNonNil := func(p0, q *ssa.BasicBlock) bool {
+		for cond, pol := range ff.OnEdge(p0, q) {
+			bo, isB := cond.(*ssa.BinOp)
+			if !isB || !isNilConst(bo.Y) || (bo.Op == token.NEQ) != pol {
+				continue
+			}
+			if gc, _, isC := asCall(resolveCell(stripConv(bo.X))); isC && gc.Common().StaticCallee() == callee && len(gc.Common().Args) == 1 && sameVal(gc.Common().Args[0], recv) {
+				return true
+			}
+		}
+		return false
+	}
+	hit := reachAvoidingEdges(fn.Blocks[0].Instrs[0], func(i ssa.Instruction) bool { return i == ssa.Instruction(pc) }, armSet, foundNonNil)
+	return hit == nil
 }
